@@ -446,6 +446,8 @@ def c01(v):
     shutil.rmtree(wd, ignore_errors=True)
     # month/day arguments beyond the grid (u32 extremes) - verdict from the same rule: month / day error
     bad = replay_plan(v, "triples", plan)
+    extreme = [p for p in plan if p[0] == "D.try_from_days" or abs(p[1][0]) > 20000]
+    bad += replay_plan(v, "triples_dev", extreme, profile="dev")       # overflow checks on: extremes must still be errors
     v.cov["distinct_nontrivial"] += len(plan)
     v.cov["traces_validated_against_impl"] += 1
     v.sample({"generated_behaviours": [list(p[:2]) + [list(p[2])] for p in plan[:3]]})
@@ -828,6 +830,14 @@ def c09(v):
     plan += pools.plan_for(["D.add_interval_ym", "D.sub_interval_ym", "TS.add_interval_ym", "TS.sub_interval_ym",
                             "OD.add_interval_ym", "OD.sub_interval_ym"], P, cap=3000)
     eventtrace(v, "months", plan, {"result", "range", "panic"}, shard=4000)
+    # offsets far outside the supported years (up to the interval limits): always an error, in both build profiles
+    huge = []
+    for idx, n in enumerate(days[:: max(1, len(days) // 40)][:40]):
+        ks = [rnd.randint(-pools.YM_MAX, pools.YM_MAX) for _ in range(500)] + [pools.YM_MAX - q for q in range(12)] + [-pools.YM_MAX + q for q in range(12)]
+        huge.append(("VEC", [["D.add_interval_ym", "TS.sub_interval_ym", "OD.add_interval_ym"][idx % 3],
+                             n if idx % 3 == 0 else [n, 86399, 999999 if idx % 3 == 1 else 0], ks]))
+    for profile in ("dev", "release"):
+        eventtrace(v, "huge_" + profile, huge, {"result", "range", "panic"}, shard=10, profile=profile)
     daysweep(v, "ldm", sweep_ranges(v, "edges"), "cal", {"ldm"}, 40000)
 
 
